@@ -4,6 +4,7 @@ import (
 	"bytes"
 	"os"
 	"os/exec"
+	"sync"
 	"testing"
 
 	"pgregory.net/rapid"
@@ -13,21 +14,43 @@ import (
 	"verifharness/stat"
 )
 
+var (
+	refCLIOnce sync.Once
+	refCLIPath string
+)
+
+// refCLI returns the path of a reference lz4 command line tool, or "".
+func refCLI() string {
+	refCLIOnce.Do(func() {
+		for _, p := range []string{os.Getenv("VERIF_LZ4_CLI"), "/root/miniconda/bin/lz4", "/usr/bin/lz4", "/usr/local/bin/lz4"} {
+			if p != "" {
+				if _, err := os.Stat(p); err == nil {
+					refCLIPath = p
+					return
+				}
+			}
+		}
+	})
+	return refCLIPath
+}
+
+// refCLIDecode runs `lz4 -d -c` on z.
+func refCLIDecode(z []byte) (ok bool, out []byte, stderr string) {
+	cmd := exec.Command(refCLI(), "-d", "-c", "-q")
+	cmd.Stdin = bytes.NewReader(z)
+	var o, e bytes.Buffer
+	cmd.Stdout, cmd.Stderr = &o, &e
+	err := cmd.Run()
+	return err == nil, o.Bytes(), e.String()
+}
+
 // TestRefGoldenCLI cross-checks the independent frame parser (the oracle of C05, C06, C09, C16 ...) against the reference
 // lz4 command line tool, when one is installed (it is on this image: /root/miniconda/bin/lz4, v1.9.4; nothing else in the
 // checks depends on it): frames from the Writer, from the independent encoder, and single mutations of them must be
 // accepted by both or rejected by both, with the same content. A disagreement is a problem of the harness (exit 2), not of
 // the library.
 func TestRefGoldenCLI(t *testing.T) {
-	cli := ""
-	for _, p := range []string{os.Getenv("VERIF_LZ4_CLI"), "/root/miniconda/bin/lz4", "/usr/bin/lz4", "/usr/local/bin/lz4"} {
-		if p != "" {
-			if _, err := os.Stat(p); err == nil {
-				cli = p
-				break
-			}
-		}
-	}
+	cli := refCLI()
 	rec := stat.For("C09")
 	if cli == "" {
 		rec.Class("refcli/no-reference-cli-installed")
@@ -37,12 +60,8 @@ func TestRefGoldenCLI(t *testing.T) {
 		return
 	}
 	run := func(z []byte) (bool, []byte) {
-		cmd := exec.Command(cli, "-d", "-c", "-q")
-		cmd.Stdin = bytes.NewReader(z)
-		var out, errb bytes.Buffer
-		cmd.Stdout, cmd.Stderr = &out, &errb
-		err := cmd.Run()
-		return err == nil, out.Bytes()
+		ok, out, _ := refCLIDecode(z)
+		return ok, out
 	}
 	n := pick(250, 4000)
 	setRapid(n, "C09/refcli")
